@@ -316,7 +316,7 @@ Section Cycles.
         assert (W' : fwalk fs (y :: l2) cur).
         { eapply fw_step; eauto. apply in_succ_of. exists f; auto. }
         refine (IH (length (y :: l2)) _ (y :: l2) eq_refl fs chain (S fuel') cur W' _ Had _).
-        * simpl. rewrite app_length. simpl. lia.
+        * unfold name in *. simpl. rewrite app_length. simpl. lia.
         * intros z Hz. apply Hav. destruct Hz as [<-|Hz]; [left; reflexivity|].
           right. apply in_or_app. right. right. exact Hz.
         * rewrite ref_check_S. exact HOk0.
@@ -422,7 +422,7 @@ Section Cycles.
   Proof.
     intros L0. assert (L : lookup_input ts n = Some fs) by (unfold lookup_input; rewrite L0; reflexivity).
     unfold spec_acyclic. change (spec_input_names ts) with (input_names ts).
-    destruct (req_reaches ts (length (input_names ts)) n n) eqn:RR; simpl.
+    destruct (req_reaches ts (length (input_names ts)) n n) eqn:RR; cbn [negb].
     - apply (reaches_iff _ _ _ _ L) in RR. destruct RR as (l & _ & W).
       destruct (okb (ref_check ts (ref_fuel ts) n [] fs)) eqn:O; [|reflexivity].
       apply okb_true in O. exfalso.
@@ -695,3 +695,211 @@ Theorem c33_equiv : forall ts,
   NoDup (map fst (ts_types ts)) -> known_class_all ts = 0 ->
   okb (finish ts) = spec_valid ts.
 Proof. intros ts ND K. exact (finish_agree ts (ref_check_acyclic ts) ND K). Qed.
+
+Theorem c33_sound : forall ts,
+  NoDup (map fst (ts_types ts)) -> known_class_all ts = 0 ->
+  finish ts = Ok tt -> spec_named ts = true.
+Proof.
+  intros ts ND K H. pose proof (c33_equiv ts ND K) as E. rewrite H in E. simpl in E.
+  unfold spec_valid in E. symmetry in E. apply andb_true_iff in E. tauto.
+Qed.
+
+Theorem c33_complete : forall ts,
+  NoDup (map fst (ts_types ts)) -> known_class_all ts = 0 ->
+  spec_named ts = true -> spec_extra ts = true -> finish ts = Ok tt.
+Proof.
+  intros ts ND K H1 H2. apply okb_true. rewrite (c33_equiv ts ND K). unfold spec_valid.
+  rewrite H1, H2. reflexivity.
+Qed.
+
+Theorem c33_reject_reason : forall ts c,
+  NoDup (map fst (ts_types ts)) -> known_class_all ts = 0 ->
+  finish ts = Err c -> spec_named ts = false \/ spec_extra ts = false.
+Proof.
+  intros ts c ND K H. pose proof (c33_equiv ts ND K) as E. rewrite H in E. simpl in E.
+  unfold spec_valid in E. symmetry in E. apply andb_false_iff in E. exact E.
+Qed.
+
+(* the model never panics nor runs out of fuel on the checked domain *)
+Theorem c33_model_total : forall ts,
+  NoDup (map fst (ts_types ts)) -> known_class_all ts = 0 ->
+  finish ts = Ok tt \/ spec_valid ts = false.
+Proof.
+  intros ts ND K. pose proof (c33_equiv ts ND K) as E.
+  destruct (spec_valid ts); [left; apply okb_true; exact E|right; reflexivity].
+Qed.
+
+(* the correspondence verdict can never be "theorem gap" *)
+Theorem c33_verdict_no_gap : forall ts i,
+  NoDup (map fst (ts_types ts)) -> check_case (ts, i) <> V_THEOREM_GAP.
+Proof.
+  intros ts i ND. unfold check_case, verdict.
+  destruct (N.eqb (known_class_all ts) 0) eqn:K.
+  - apply N.eqb_eq in K. rewrite (c33_equiv ts ND K), Bool.eqb_reflx.
+    destruct (impl_eq_model i (finish ts)); [discriminate|].
+    destruct (impl_sat_spec ts i); discriminate.
+  - destruct (impl_eq_model i (finish ts)).
+    + destruct (Bool.eqb _ _); [discriminate|].
+      unfold V_THEOREM_GAP. intros H. apply N.eqb_neq in K. lia.
+    + destruct (impl_sat_spec ts i); [discriminate|].
+      unfold V_THEOREM_GAP. intros H. apply N.eqb_neq in K. lia.
+Qed.
+
+(* every schema that builds has all its references resolved (what the
+   introspection / export / execution code indexes the type map with) *)
+Theorem c33_built_refs_resolve : forall ts,
+  finish ts = Ok tt ->
+  lookup ts (ts_query ts) <> None /\
+  (forall m, ts_mutation ts = Some m -> lookup ts m <> None) /\
+  (forall n d r, In (n, d) (ts_types ts) -> In r (referenced_names d) -> lookup ts r <> None).
+Proof.
+  intros ts H. apply okb_true in H. unfold finish, check in H. rewrite !okb_andthen in H.
+  apply andb_true_iff in H. destruct H as [_ H].
+  do 5 (apply andb_true_iff in H; destruct H as [H _]).
+  unfold check_types_exists in H. rewrite okb_andthen, okb_names_exist, okb_first_err in H.
+  apply andb_true_iff in H. destruct H as [H5 H4]. cbn [forallb] in H5.
+  apply andb_true_iff in H5. destruct H5 as [Hq Hm].
+  assert (EX : forall n, exists_b ts n = true -> lookup ts n <> None).
+  { intros n. unfold exists_b. destruct (lookup ts n); [discriminate|discriminate]. }
+  repeat split.
+  - apply EX; exact Hq.
+  - intros m Hmm. rewrite Hmm in Hm. cbn [forallb] in Hm. apply andb_true_iff in Hm. apply EX; tauto.
+  - intros n d r Hin Hr. rewrite forallb_forall in H4.
+    assert (Hin' : In (n, d) (all_types ts)) by (unfold all_types; apply in_or_app; left; exact Hin).
+    specialize (H4 _ Hin'). cbn [snd] in H4. rewrite okb_names_exist, forallb_forall in H4.
+    apply EX. apply H4. exact Hr.
+Qed.
+
+(* without declared interfaces and subscriptions there is no known class *)
+Theorem c33_no_interfaces_exact : forall ts,
+  ts_subscription ts = None ->
+  (forall n d, In (n, d) (ts_types ts) ->
+     match d with
+     | DObject _ impls | DInterface _ impls => impls = []
+     | DSubscription _ => False
+     | _ => True end) ->
+  known_class_all ts = 0.
+Proof.
+  intros ts HS H. unfold known_class_all, known_class. rewrite HS. simpl.
+  apply first_nz_zero. intros [n d] Hin. specialize (H n d Hin). unfold kc_type. cbn [snd].
+  destruct d as [| | |fs impls|fs impls|ms|fs oneof|fs]; try reflexivity.
+  - subst impls. reflexivity.
+  - subst impls. destruct fs; reflexivity.
+  - contradiction.
+Qed.
+
+(* the direction of the covariance test, for every type reference *)
+Lemma is_subtype_weakening t : is_subtype t (TNonNull t) = true.
+Proof.
+  induction t as [n|t IH|t IH].
+  - apply (is_subtype_refl (TNamed n)).
+  - exact IH.
+  - apply (is_subtype_refl (TList t)).
+Qed.
+
+Lemma is_subtype_strengthening t : is_subtype (TNonNull t) t = false.
+Proof. induction t as [n|t IH|t IH]; simpl; auto. Qed.
+
+Lemma spec_strengthening ts t : spec_field_type_ok ts (TNonNull t) t = true.
+Proof.
+  induction t as [n|t IH|t IH].
+  - simpl. rewrite name_eqb_refl. reflexivity.
+  - exact IH.
+  - change (spec_field_type_ok ts (TList t) (TList t) = true). apply spec_field_type_ok_refl.
+Qed.
+
+Theorem c33_direction : forall ts t,
+  is_subtype t (TNonNull t) = true /\
+  is_subtype (TNonNull t) t = false /\ spec_field_type_ok ts (TNonNull t) t = true.
+Proof.
+  intros ts t. auto using is_subtype_weakening, is_subtype_strengthening, spec_strengthening.
+Qed.
+
+(* ------------------------------------------------------------ witnesses ---- *)
+Definition mk (types : list (name * tdef)) (sub : option name) : tsys :=
+  {| ts_types := types; ts_query := 100; ts_mutation := None; ts_subscription := sub; ts_dunder := [] |}.
+Definition fl (n : name) (t : tref) : fld := {| f_name := n; f_ty := t; f_args := [] |}.
+Definition fla (n : name) (t : tref) (a : list arg) : fld := {| f_name := n; f_ty := t; f_args := a |}.
+Definition ar (n : name) (t : tref) : arg := {| a_name := n; a_ty := t; a_default := false |}.
+Definition tInt := TNamed N_Int.
+Definition qobj : name * tdef := (100, DObject [fl 200 tInt] []).
+
+(* names: 100 Q, 101 I, 102 O, 103 Animal, 104 Dog, 105 Grand, 106 Parent, 107 Sub, 108 N, 109 Nope;
+   fields 200 v/a, 201 pet/g, 202 p; argument 300 x *)
+Definition w_cov_accept := mk [qobj; (101, DInterface [fl 200 (TNonNull tInt)] []); (102, DObject [fl 200 tInt] [101])] None.
+Definition w_cov_reject := mk [qobj; (101, DInterface [fl 200 tInt] []); (102, DObject [fl 200 (TNonNull tInt)] [101])] None.
+Definition w_cov_named := mk [qobj; (103, DInterface [fl 200 tInt] []); (104, DObject [fl 200 tInt] [103]);
+                              (101, DInterface [fl 201 (TNamed 103)] []); (102, DObject [fl 201 (TNamed 104)] [101])] None.
+Definition w_arg_subtype := mk [qobj; (101, DInterface [fla 200 tInt [ar 300 tInt]] []);
+                                (102, DObject [fla 200 tInt [ar 300 (TNonNull tInt)]] [101])] None.
+Definition w_extra_required := mk [qobj; (101, DInterface [fl 200 tInt] []);
+                                   (102, DObject [fla 200 tInt [ar 300 (TNonNull tInt)]] [101])] None.
+Definition w_missing_nullable := mk [qobj; (101, DInterface [fla 200 tInt [ar 300 tInt]] []);
+                                     (102, DObject [fl 200 tInt] [101])] None.
+Definition w_fieldless := mk [qobj; (105, DInterface [fl 201 tInt] []); (106, DInterface [] [105])] None.
+Definition w_fieldless_self := mk [qobj; (106, DInterface [] [106])] None.
+Definition w_unregistered := mk [qobj; (106, DInterface [fl 201 tInt] [109])] None.
+Definition w_transitive := mk [qobj; (105, DInterface [fl 201 tInt] []);
+                               (106, DInterface [fl 201 tInt; fl 202 tInt] [105]);
+                               (102, DObject [fl 201 tInt; fl 202 tInt] [106])] None.
+Definition w_sub_root := mk [qobj] (Some 107).
+Definition w_sub_field := mk [qobj; (108, DInput [ar 300 tInt] false); (107, DSubscription [fl 200 (TNamed 108)])] (Some 107).
+Definition w_sub_arg := mk [qobj; (107, DSubscription [fla 200 tInt [ar 300 (TNamed 100)]])] (Some 107).
+
+Definition nodup_names (ts : tsys) : Prop := NoDup (map fst (ts_types ts)).
+
+Ltac nodup := unfold nodup_names; simpl; repeat constructor; simpl; intuition discriminate.
+
+(* accepted although a named rule fails / rejected although every rule holds *)
+Definition accepts_invalid (k : N) (ts : tsys) : Prop :=
+  nodup_names ts /\ known_class_all ts = k /\ finish ts = Ok tt /\ spec_named ts = false.
+Definition rejects_valid (k : N) (ts : tsys) (c : N) : Prop :=
+  nodup_names ts /\ known_class_all ts = k /\ finish ts = Err c /\ spec_valid ts = true.
+
+Lemma w1a : accepts_invalid 1 w_cov_accept. Proof. split; [nodup|vm_compute; auto]. Qed.
+Lemma w1b : rejects_valid 1 w_cov_reject 14. Proof. split; [nodup|vm_compute; auto]. Qed.
+Lemma w2 : rejects_valid 2 w_cov_named 14. Proof. split; [nodup|vm_compute; auto]. Qed.
+Lemma w3 : accepts_invalid 3 w_arg_subtype. Proof. split; [nodup|vm_compute; auto]. Qed.
+Lemma w4 : accepts_invalid 4 w_extra_required. Proof. split; [nodup|vm_compute; auto]. Qed.
+Lemma w5 : accepts_invalid 5 w_missing_nullable. Proof. split; [nodup|vm_compute; auto]. Qed.
+Lemma w6a : accepts_invalid 6 w_fieldless. Proof. split; [nodup|vm_compute; auto]. Qed.
+Lemma w6b : accepts_invalid 6 w_fieldless_self. Proof. split; [nodup|vm_compute; auto]. Qed.
+Lemma w7 : accepts_invalid 7 w_unregistered. Proof. split; [nodup|vm_compute; auto]. Qed.
+Lemma w8 : accepts_invalid 8 w_transitive. Proof. split; [nodup|vm_compute; auto]. Qed.
+Lemma w9 : accepts_invalid 9 w_sub_root. Proof. split; [nodup|vm_compute; auto]. Qed.
+Lemma w10a : accepts_invalid 10 w_sub_field. Proof. split; [nodup|vm_compute; auto]. Qed.
+Lemma w10b : accepts_invalid 10 w_sub_arg. Proof. split; [nodup|vm_compute; auto]. Qed.
+
+(* the property at full strength is false of the faithful model, both ways *)
+Theorem c33_full_refuted :
+  (exists ts, nodup_names ts /\ finish ts = Ok tt /\ spec_named ts = false) /\
+  (exists ts c, nodup_names ts /\ finish ts = Err c /\ spec_valid ts = true).
+Proof.
+  split.
+  - exists w_cov_accept. destruct w1a as (A & _ & B & C). auto.
+  - exists w_cov_reject, 14. destruct w1b as (A & _ & B & C). auto.
+Qed.
+
+(* non-vacuity: a type system with interfaces, a union, input objects, a
+   mutation and a subscription root that lies in no known class and builds;
+   and one in no known class that is rejected for a required input cycle *)
+Definition nv_valid : tsys :=
+  {| ts_types := [ (101, DInterface [fla 200 (TNonNull tInt) [ar 300 (TNamed 108)]] []);
+                   (110, DInterface [fla 200 (TNonNull tInt) [ar 300 (TNamed 108)]; fl 201 (TList (TNamed 101))] [101]);
+                   (102, DObject [fla 200 (TNonNull tInt) [ar 300 (TNamed 108)]; fl 201 (TList (TNamed 101))] [110; 101]);
+                   (111, DUnion [102; 100]);
+                   (108, DInput [ar 300 (TNonNull (TNamed 112)); ar 301 (TNamed 108)] false);
+                   (112, DInput [ar 300 (TList (TNonNull (TNamed 108)))] true);
+                   (100, DObject [fl 200 (TNamed 111); fl 201 (TNonNull (TNamed 110))] []);
+                   (113, DObject [fla 200 tInt [ar 300 (TNonNull (TNamed 108))]] []);
+                   (107, DSubscription [fl 200 (TNamed 102)]) ];
+     ts_query := 100; ts_mutation := Some 113; ts_subscription := Some 107; ts_dunder := [] |}.
+Definition nv_cycle : tsys :=
+  mk [qobj; (108, DInput [ar 300 (TNonNull (TNamed 112))] false);
+            (112, DInput [ar 300 (TNonNull (TNamed 114))] false);
+            (114, DInput [ar 300 (TNonNull (TNamed 112)); ar 301 tInt] false)] None.
+
+Lemma c33_nonvacuous :
+  (nodup_names nv_valid /\ known_class_all nv_valid = 0 /\ finish nv_valid = Ok tt /\ spec_valid nv_valid = true) /\
+  (nodup_names nv_cycle /\ known_class_all nv_cycle = 0 /\ finish nv_cycle = Err 18 /\ spec_named nv_cycle = false).
+Proof. split; (split; [nodup|vm_compute; auto]). Qed.
